@@ -297,11 +297,22 @@ def run(ctx, ck):
     # ---------------------------------------------------------------- D4
     lap = m.func('mininec.Laplace_Load.__init__')
     # a / b stored as given (zero padded)
-    txt = ' '.join(norm(s) for s in lap.body())
-    ok = 'self.a[:len(a)] = a' in txt and 'self.b[:len(b)] = b' in txt
-    ck.ob('R-POLY.circuit', 'Laplace_Load.__init__|stores a,b', ok, lap.loc(),
-          'denominator a and numerator b stored zero-padded')
+    # (the closed end-of-constructor values: zeros of the common length with the coefficients written at the front)
     from ..symx import SymExec, loop_transformer, copy_replace
+    lpaths = [p_ for p_ in SymExec(ctx, lap, depth=2, effects=True).run() if p_.end != 'raise']
+    if not lpaths:
+        raise AnalysisError('Laplace_Load.__init__: no symbolic path')
+    ok = True
+    got = set()
+    for p_ in lpaths:
+        for nm_ in ('a', 'b'):
+            v_ = norm(p_.env['self.' + nm_]) if 'self.' + nm_ in p_.env else None
+            got.add('self.%s = %s' % (nm_, v_))
+            ok = ok and v_ in ('_upd(np.zeros(max(len(a), len(b))), :len(%s), %s)' % (nm_, nm_),
+                               '_upd(np.zeros(max(len(b), len(a))), :len(%s), %s)' % (nm_, nm_))
+    ck.ob('R-POLY.circuit', 'Laplace_Load.__init__|stores a,b', ok, lap.loc(),
+          'denominator a and numerator b stored zero-padded to their common length' if ok else
+          'denominator a and numerator b are not stored zero-padded to their common length: %s' % sorted(got))
     from ..poly import poly_roles, roles_of_text, cancel
     imp = ctx.flat('mininec.Laplace_Load.impedance')       # (the evaluation loop may live in a private helper)
     # the evaluation loop as a state transformer: N' = N + b[j]*M, D' = D + a[j]*M, M' = M*s with
